@@ -1,0 +1,96 @@
+// Copyright (C) 2026 Storj Labs, Inc.
+// See LICENSE for copying information.
+
+//go:build verif
+
+package drpcmetadata
+
+// Machine-checked contracts for this package (read by /verif/govc; comment-only).
+//
+// Wire layout (what released versions emit: protobuf message with one map<string,string> field 1):
+//   entry  := 0x0a varint(len(inner)) inner
+//   inner  := 0x0a varint(len(key)) key 0x12 varint(len(value)) value
+
+//@ spec len64K(n uint64, k int) int = ite(k >= 64 || (n >> k) == 0, k, len64K(n, k+1))
+
+//@ extern math/bits.Len64(x) (n int)
+//@   ensures n == len64K(x, 0)
+
+// varintSize is the number of bytes of the varint encoding (the closed form agrees with the
+// byte-by-byte definition for every 64-bit value).
+//@ func varintSize
+//@   mode bv
+//@   props C11
+//@   reveal vEncLen
+//@   ensures [size] result == uint64(vEncLen(n))
+//@   ensures [range] 1 <= result && result <= 10
+
+//@ spec strSize(n int) int = 1 + vEncLen(uint64(n)) + n
+
+//@ func encodedStringSize
+//@   mode int
+//@   props C11
+//@   ensures [size] result == uint64(strSize(len(x)))
+
+// appendEntry: exactly the layout above; in particular the outer length prefix is the real length
+// of the inner message.
+//@ func appendEntry
+//@   mode int
+//@   props C11 C18
+//@   modifies memcap(buf)
+//@   let lk = len(key)
+//@   let lv = len(value)
+//@   let inner = strSize(lk) + strSize(lv)
+//@   let n0 = vEncLen(uint64(inner))
+//@   let n1 = vEncLen(uint64(lk))
+//@   let n2 = vEncLen(uint64(lv))
+//@   let b = len(buf)
+//@   ensures [len]    len(result) == b + 1 + n0 + inner
+//@   ensures [prefix] forall i int :: 0 <= i && i < b ==> result[i] == old(buf[i])
+//@   ensures [tag0]   result[b] == 10 && vEncAt(result, b + 1, uint64(inner), n0)
+//@   ensures [tag1]   result[b + 1 + n0] == 10 && vEncAt(result, b + 2 + n0, uint64(lk), n1)
+//@   ensures [key]    forall i int :: 0 <= i && i < lk ==> result[b + 2 + n0 + n1 + i] == key[i]
+//@   ensures [tag2]   result[b + 2 + n0 + n1 + lk] == 18 && vEncAt(result, b + 3 + n0 + n1 + lk, uint64(lv), n2)
+//@   ensures [value]  forall i int :: 0 <= i && i < lv ==> result[b + 3 + n0 + n1 + lk + n2 + i] == value[i]
+
+// ---- decoder: total, bounds-safe, and equal to the reference layout
+
+// one length-prefixed field with tag t at the front of b: status 0 ok, 1 malformed
+//@ spec fldOK(b []byte, t byte) bool = len(b) >= 1 && b[0] == t && vOK(b[1:]) && vVal(b[1:], 0) <= uint64(len(b) - 1 - vAdv(b[1:]))
+//@ spec fldHdr(b []byte) int = 1 + vAdv(b[1:])
+//@ spec fldLen(b []byte) int = int(vVal(b[1:], 0))
+//@ spec fldRest(b []byte) []byte = b[fldHdr(b) + fldLen(b):]
+//@ spec kvOK(b []byte) bool = fldOK(b, 10) && fldOK(fldRest(b), 18) && len(fldRest(fldRest(b))) == 0
+
+//@ func readKeyValue
+//@   mode int
+//@   props C11 C13
+//@   ensures [key]   ok ==> arr(key) == arr(buf) && off(key) == off(buf) + fldHdr(buf) && len(key) == fldLen(buf) && fldOK(buf, 10)
+//@   ensures [value] ok ==> arr(value) == arr(buf) && off(buf) <= off(value) && off(value) + len(value) == off(buf) + len(buf)
+//@   ensures [err]   ok ==> err == nil
+
+//@ spec entOK(b []byte) bool = fldOK(b, 10) && kvOK(b[fldHdr(b):fldHdr(b) + fldLen(b)])
+
+//@ func readEntry
+//@   mode int
+//@   props C11 C13
+//@   ensures [rem]  ok ==> arr(rem) == arr(buf) && off(rem) == off(buf) + fldHdr(buf) + fldLen(buf) && len(rem) == len(buf) - fldHdr(buf) - fldLen(buf)
+//@   ensures [kv]   ok ==> arr(key) == arr(buf) && arr(value) == arr(buf) && len(key) <= len(buf) && len(value) <= len(buf)
+//@   ensures [err]  ok ==> err == nil
+//@   ensures [progress] ok ==> len(rem) < len(buf)
+
+// Decode returns a map or an error for every input; it terminates because every entry consumes
+// at least two bytes.
+//@ func Decode
+//@   mode int
+//@   props C11 C13
+//@   loop 1 invariant [buf] arr(buf) == arr(buf0) || len(buf) == 0
+//@   loop 1 decreases len(buf)
+//@   ensures [total] result1 != nil ==> result0 == nil
+
+//@ func AddPairs
+//@   props C11
+//@   trusted "ranges over a map (outside the interpreted subset): assumed to add exactly the given pairs to the context"
+//@ func Encode
+//@   props C11
+//@   trusted "ranges over a map (outside the interpreted subset): assumed to call appendEntry once per pair"
